@@ -79,7 +79,9 @@ def transform():
         st.tuples(sc, st.integers(-10, 10).map(lambda k: k / 10), st.integers(-10, 10).map(lambda k: k / 10), sc)
           .filter(lambda m: abs(m[0] * m[3] - m[1] * m[2]) > 1e-3),
     )
-    return st.tuples(two, off, off).map(lambda t: [*t[0], t[1], t[2]])
+    general = st.tuples(two, off, off).map(lambda t: [*t[0], t[1], t[2]])
+    # the exact identity (no offset at all) is its own class: "fast paths" for untransformed references hide there
+    return st.one_of(general, general, general, general, general, general, st.just([1, 0, 0, 1, 0, 0]))
 
 NAMES = ["a", "b", "c", "d", "e", "f", "g", "h", "i", "j", "k", "l", "m", "n", "o", "p"]
 
